@@ -4,6 +4,8 @@ import Mathlib.Tactic.Linarith
 import Mathlib.Tactic.Ring
 import Mathlib.Tactic.FieldSimp
 import Mathlib.Tactic.Positivity
+import Mathlib.Algebra.Order.Field.Power
+import Mathlib.Tactic.NormNum
 
 /-! # C14 - values prepared for writing respect format, range and step -/
 
@@ -162,17 +164,231 @@ theorem C14_int_format_integer (mn mx st : Option ℚ) (v : ℚ) : ∃ g : ℤ, 
   unfold convert
   exact ⟨_, rfl⟩
 
-/-- **Fractional values (six significant digits), partial**: when the four intermediate
-    quantities are representable in six significant digits, the float path computes exactly what
-    the exact path computes - hence the nearest grid point with ties upward.  The general bound
-    (distance from the nearest grid point after four 6-digit roundings) is not proved; it is
-    covered by the exact-rational oracle on samples. -/
-theorem C14_nearest_6digits_partial (v off step : ℚ)
+/-- **Fractional values, the exact case**: when the four intermediate quantities are representable in six significant
+    digits, the float path computes exactly what the exact path computes - hence the nearest grid point with ties
+    upward.  The general case is `C14_float_within_six_digits` below. -/
+theorem C14_nearest_6digits_exact (v off step : ℚ)
     (h1 : roundSig 6 (v - off) = v - off) (h2 : roundSig 6 ((v - off) / step) = (v - off) / step)
     (h3 : roundSig 6 ((roundHalfUpInt ((v - off) / step) : ℚ) * step) = (roundHalfUpInt ((v - off) / step) : ℚ) * step)
     (h4 : roundSig 6 (off + (roundHalfUpInt ((v - off) / step) : ℚ) * step) = off + (roundHalfUpInt ((v - off) / step) : ℚ) * step) :
     stepRound false v off step = stepRound true v off step := by
   simp only [stepRound, ctxRound, if_true, Bool.false_eq_true, if_false, h1, h2, h3, h4]
+
+/-! ## the float path in general: six significant digits -/
+
+/-- digits of a positive natural: `10^(d-1) ≤ n < 10^d` -/
+theorem ndigits_spec : ∀ (n fuel : ℕ), n < fuel → 0 < n →
+    10 ^ (ndigits fuel n - 1) ≤ n ∧ n < 10 ^ (ndigits fuel n) ∧ 0 < ndigits fuel n := by
+  intro n
+  induction n using Nat.strong_induction_on with
+  | _ n ih =>
+    intro fuel hf hn
+    obtain ⟨f, rfl⟩ : ∃ f, fuel = f + 1 := ⟨fuel - 1, by omega⟩
+    have hn0 : n ≠ 0 := by omega
+    simp only [ndigits, hn0, if_false]
+    by_cases hq : n / 10 = 0
+    · have hlt : n < 10 := by omega
+      cases f with
+      | zero => omega
+      | succ f' =>
+        simp [ndigits, hq]
+        omega
+    · have hq0 : 0 < n / 10 := Nat.pos_of_ne_zero hq
+      obtain ⟨h1, h2, h3⟩ := ih (n / 10) (by omega) f (by omega) hq0
+      refine ⟨?_, ?_, by omega⟩
+      · have : 1 + ndigits f (n / 10) - 1 = (ndigits f (n / 10) - 1) + 1 := by omega
+        rw [this, pow_succ]
+        have := Nat.div_mul_le_self n 10
+        nlinarith
+      · rw [show 1 + ndigits f (n / 10) = ndigits f (n / 10) + 1 by omega, pow_succ]
+        have := Nat.lt_succ_iff.mp (Nat.lt_succ_of_le (Nat.le_refl (n / 10)))
+        have h10 : n < (n / 10 + 1) * 10 := by omega
+        nlinarith
+
+theorem pow10_eq (e : ℤ) : pow10 e = (10 : ℚ) ^ e := by
+  unfold pow10
+  split
+  · rename_i h
+    have : e = (e.toNat : ℤ) := (Int.toNat_of_nonneg h).symm
+    conv_rhs => rw [this]
+    push_cast
+    rw [zpow_natCast]
+  · rename_i h
+    have hneg : 0 ≤ -e := by omega
+    have : e = -((-e).toNat : ℤ) := by rw [Int.toNat_of_nonneg hneg]; ring
+    conv_rhs => rw [this]
+    push_cast
+    rw [zpow_neg, zpow_natCast]
+    simp
+
+/-- the adjusted exponent is a lower bound: `10^adjExp q ≤ |q|` -/
+theorem adjExp_le (q : ℚ) (hq : q ≠ 0) : pow10 (adjExp q) ≤ |q| := by
+  unfold adjExp
+  have habs : (if q < 0 then -q else q) = |q| := by
+    split
+    · rename_i h; rw [abs_of_neg h]
+    · rename_i h; rw [abs_of_nonneg (not_lt.mp h)]
+  simp only [habs]
+  have hpos : 0 < |q| := abs_pos.mpr hq
+  generalize |q| = a at hpos ⊢
+  split
+  · split
+    · rename_i _ h; exact h
+    · rename_i h _; exact h
+  · -- the digit-count estimate was one too high
+    have hnum : 0 < a.num := Rat.num_pos.mpr hpos
+    have hn : 0 < a.num.toNat := by omega
+    have hd : 0 < a.den := a.den_pos
+    obtain ⟨n1, _, n3⟩ := ndigits_spec a.num.toNat (a.num.toNat + 1) (by omega) hn
+    obtain ⟨_, d2, d3⟩ := ndigits_spec a.den (a.den + 1) (by omega) hd
+    set i := ndigits (a.num.toNat + 1) a.num.toNat
+    set j := ndigits (a.den + 1) a.den
+    rw [pow10_eq]
+    have ha : a = (a.num.toNat : ℚ) / (a.den : ℚ) := by
+      have h1 : ((a.num.toNat : ℕ) : ℤ) = a.num := Int.toNat_of_nonneg hnum.le
+      have h2 : ((a.num.toNat : ℕ) : ℚ) = (a.num : ℚ) := by exact_mod_cast h1
+      rw [h2]; exact (Rat.num_div_den a).symm
+    have e : ((i : ℤ) - (j : ℤ) - 1) = ((i - 1 : ℕ) : ℤ) - (j : ℤ) := by
+      have : 1 ≤ i := n3
+      push_cast [Nat.cast_sub this]; ring
+    rw [e, zpow_sub₀ (by norm_num : (10 : ℚ) ≠ 0), zpow_natCast, zpow_natCast]
+    rw [ha, div_le_div_iff₀ (by positivity) (by exact_mod_cast hd)]
+    have h1 : ((10 ^ (i - 1) : ℕ) : ℚ) ≤ (a.num.toNat : ℚ) := by exact_mod_cast n1
+    have h2 : ((a.den : ℕ) : ℚ) ≤ ((10 ^ j : ℕ) : ℚ) := by exact_mod_cast d2.le
+    push_cast at h1 h2
+    have h3 : (0 : ℚ) ≤ (a.den : ℚ) := by positivity
+    have h4 : (0 : ℚ) ≤ (10 : ℚ) ^ (i - 1) := by positivity
+    calc (10 : ℚ) ^ (i - 1) * (a.den : ℚ) ≤ (10 : ℚ) ^ (i - 1) * (10 : ℚ) ^ j := by
+          exact mul_le_mul_of_nonneg_left h2 h4
+      _ ≤ (a.num.toNat : ℚ) * (10 : ℚ) ^ j := by
+          exact mul_le_mul_of_nonneg_right h1 (by positivity)
+
+theorem rhu_abs (z : ℚ) : |((roundHalfUpInt z : ℤ) : ℚ) - z| ≤ 1 / 2 := by
+  by_cases hz : z < 0
+  · have hneg : roundHalfUpInt z = - roundHalfUpInt (-z) := by
+      have h2 : ¬ (-z < 0) := by linarith
+      unfold roundHalfUpInt
+      simp only [hz, h2, if_true, if_false]
+    obtain ⟨b1, b2⟩ := rhu_bounds (-z) (by linarith)
+    rw [hneg]
+    push_cast
+    rw [abs_le]
+    constructor <;> linarith
+  · obtain ⟨b1, b2⟩ := rhu_bounds z (not_lt.mp hz)
+    rw [abs_le]
+    constructor <;> linarith
+
+/-- rounding to six significant digits: relative error at most 5·10⁻⁶ -/
+theorem roundSig6_rel (q : ℚ) : |roundSig 6 q - q| * 200000 ≤ |q| := by
+  unfold roundSig
+  by_cases hq : q = 0
+  · simp [hq]
+  · simp only [hq, if_false]
+    have hle := adjExp_le q hq
+    rw [pow10_eq] at hle
+    set e := adjExp q
+    have hs : pow10 (e - ((6 : ℕ) : ℤ) + 1) = (10 : ℚ) ^ e / 100000 := by
+      rw [pow10_eq]
+      have : e - ((6 : ℕ) : ℤ) + 1 = e - 5 := by push_cast; ring
+      rw [this, zpow_sub₀ (by norm_num : (10 : ℚ) ≠ 0)]
+      norm_num
+    rw [hs]
+    set sc := (10 : ℚ) ^ e / 100000 with hsc
+    have hpos : 0 < sc := by positivity
+    have hr := rhu_abs (q / sc)
+    have : ((roundHalfUpInt (q / sc) : ℤ) : ℚ) * sc - q = (((roundHalfUpInt (q / sc) : ℤ) : ℚ) - q / sc) * sc := by
+      field_simp
+    rw [this, abs_mul, abs_of_pos hpos]
+    have h1 : |((roundHalfUpInt (q / sc) : ℤ) : ℚ) - q / sc| * sc ≤ 1 / 2 * sc :=
+      mul_le_mul_of_nonneg_right hr hpos.le
+    have h2 : sc * 100000 = (10 : ℚ) ^ e := by rw [hsc]; field_simp
+    nlinarith
+
+theorem rhu_nonneg (x : ℚ) (hx : 0 ≤ x) : 0 ≤ roundHalfUpInt x := by
+  obtain ⟨_, b2⟩ := rhu_bounds x hx
+  by_contra h
+  have : roundHalfUpInt x ≤ -1 := by omega
+  have : ((roundHalfUpInt x : ℤ) : ℚ) ≤ -1 := by exact_mod_cast this
+  linarith
+
+theorem roundSig_nonneg (q : ℚ) (hq : 0 ≤ q) : 0 ≤ roundSig 6 q := by
+  unfold roundSig
+  split
+  · exact le_refl _
+  · have hp : 0 < pow10 (adjExp q - ((6 : ℕ) : ℤ) + 1) := by rw [pow10_eq]; positivity
+    have := rhu_nonneg (q / pow10 (adjExp q - ((6 : ℕ) : ℤ) + 1)) (div_nonneg hq hp.le)
+    have h2 : (0 : ℚ) ≤ ((roundHalfUpInt (q / pow10 (adjExp q - ((6 : ℕ) : ℤ) + 1)) : ℤ) : ℚ) := by exact_mod_cast this
+    exact mul_nonneg h2 hp.le
+
+/-- **Fractional values, in general**: the float path (every arithmetic result kept to six significant digits) returns
+    the six-digit rendering of a grid point `off + k·step` whose index `k` is the exact quotient rounded half-up, up to
+    the relative slack 1/99999 that the two roundings before `to_integral_value` can introduce; the two roundings after it
+    move the result by at most a relative 1/199999 of the magnitudes involved. -/
+theorem C14_float_within_six_digits (v off step : ℚ) (hs : 0 < step) (hv : off ≤ v) :
+    ∃ k : ℤ, |(k : ℚ) - (v - off) / step| ≤ 1 / 2 + ((v - off) / step) / 99999 ∧
+      |stepRound false v off step - (off + k * step)| ≤ (|off + k * step| + |(k : ℚ) * step|) / 199999 := by
+  have ha : 0 ≤ v - off := by linarith
+  set a := v - off with hadef
+  set d := roundSig 6 a with hddef
+  set q := roundSig 6 (d / step) with hqdef
+  set k := roundHalfUpInt q with hkdef
+  set m := roundSig 6 ((k : ℚ) * step) with hmdef
+  have hg : stepRound false v off step = roundSig 6 (off + m) := by
+    simp [stepRound, ctxRound, ← hadef, ← hddef, ← hqdef, ← hkdef, ← hmdef]
+  refine ⟨k, ?_, ?_⟩
+  · have hd := roundSig6_rel a
+    rw [abs_of_nonneg ha] at hd
+    have hd0 : 0 ≤ d := roundSig_nonneg a ha
+    have hy0 : 0 ≤ d / step := div_nonneg hd0 hs.le
+    have hq := roundSig6_rel (d / step)
+    rw [abs_of_nonneg hy0] at hq
+    have hk := rhu_abs q
+    have hx0 : 0 ≤ a / step := div_nonneg ha hs.le
+    -- |y - x| ≤ x / 200000
+    have hyx : |d / step - a / step| * 200000 ≤ a / step := by
+      have : d / step - a / step = (d - a) / step := by ring
+      rw [this, abs_div, abs_of_pos hs, div_mul_eq_mul_div]
+      exact div_le_div_of_nonneg_right hd hs.le
+    rw [abs_le] at hk ⊢
+    have h1 := abs_le.mp (show |q - d / step| ≤ (d / step) / 200000 by
+      rw [le_div_iff₀ (by norm_num)]; exact hq)
+    have h2 := abs_le.mp (show |d / step - a / step| ≤ (a / step) / 200000 by
+      rw [le_div_iff₀ (by norm_num)]; exact hyx)
+    constructor <;> linarith [h1.1, h1.2, h2.1, h2.2, hk.1, hk.2]
+  · rw [hg]
+    have hm := roundSig6_rel ((k : ℚ) * step)
+    have hgm := roundSig6_rel (off + m)
+    have t1 : |roundSig 6 (off + m) - (off + k * step)| ≤ |roundSig 6 (off + m) - (off + m)| + |m - (k : ℚ) * step| := by
+      have := abs_sub_le (roundSig 6 (off + m)) (off + m) (off + k * step)
+      have e : off + m - (off + (k : ℚ) * step) = m - (k : ℚ) * step := by ring
+      rw [e] at this; exact this
+    have t2 : |off + m| ≤ |off + (k : ℚ) * step| + |m - (k : ℚ) * step| := by
+      have := abs_add_le (off + (k : ℚ) * step) (m - (k : ℚ) * step)
+      have e : off + (k : ℚ) * step + (m - (k : ℚ) * step) = off + m := by ring
+      rw [e] at this; exact this
+    have n1 : 0 ≤ |off + (k : ℚ) * step| := abs_nonneg _
+    have n2 : 0 ≤ |(k : ℚ) * step| := abs_nonneg _
+    have n3 : 0 ≤ |m - (k : ℚ) * step| := abs_nonneg _
+    rw [le_div_iff₀ (by norm_num)]
+    nlinarith
+
+/-- the same as a distance: the result is within half a step of the input, plus a relative 10⁻⁵ of the magnitudes
+    involved (the price of six significant digits) -/
+theorem C14_float_distance (v off step : ℚ) (hs : 0 < step) (hv : off ≤ v) :
+    ∃ k : ℤ, |stepRound false v off step - v| ≤
+      step / 2 + (v - off) / 99999 + (|off + k * step| + |(k : ℚ) * step|) / 199999 := by
+  obtain ⟨k, h1, h2⟩ := C14_float_within_six_digits v off step hs hv
+  refine ⟨k, ?_⟩
+  have t := abs_sub_le (stepRound false v off step) (off + k * step) v
+  have e : off + (k : ℚ) * step - v = ((k : ℚ) - (v - off) / step) * step := by
+    field_simp; ring
+  have h3 : |off + (k : ℚ) * step - v| ≤ (1 / 2 + (v - off) / step / 99999) * step := by
+    rw [e, abs_mul, abs_of_pos hs]
+    exact mul_le_mul_of_nonneg_right h1 hs.le
+  have e2 : (1 / 2 + (v - off) / step / 99999) * step = step / 2 + (v - off) / 99999 := by
+    field_simp
+  rw [e2] at h3
+  linarith
 
 /-- non-vacuity and the unchanged-tree findings as regression facts: 1234567 and 2^32-1 stay exact;
     a tie goes upward; the float path reproduces 27.25 -> 27.5 on a 0.5 grid from 10 -/
